@@ -201,6 +201,9 @@ impl Monitor for C13 {
     fn streams(&self, tier: Tier) -> Vec<StreamSpec> {
         let mut s = vec![stream("c13-valid", tier.n(40, 800_000, 25_000_000)), stream("c13-pairs", tier.n(24, 48_000, 2_400_000))];
         if tier != Tier::Miri {
+            s.push(spec::engine::exhaustive("v2-collide", 2 * spec::collide::v2_pairs().len() as u64));
+        }
+        if tier != Tier::Miri {
             // every value of each 16-bit word of IPv4 / IPv6 blocks, each byte of Unix blocks
             s.push(spec::engine::exhaustive("v2-sweep", spec::v2::sweep_count()));
         }
@@ -209,7 +212,9 @@ impl Monitor for C13 {
     fn run_case(&self, stream: &str, idx: u64, seed: u64, rec: &mut Recorder) {
         let mut rng = Rng::for_case(seed, stream_id(stream), idx);
         let mut b = Vec::new();
-        if stream == "v2-sweep" {
+        if stream == "v2-collide" {
+            b = spec::collide::v2_case(idx);
+        } else if stream == "v2-sweep" {
             spec::v2::sweep_case(idx, &mut rng, &mut b);
         } else if stream == "c13-pairs" {
             let (vc, fp) = valid_ctl(idx);
@@ -217,10 +222,12 @@ impl Monitor for C13 {
         } else {
             valid_header(&mut rng, &mut b);
         }
-        if rng.chance(1, 4) {
+        if stream != "v2-collide" && rng.chance(1, 4) {
             b.extend_from_slice(b"GET /");
         }
-        judge(&b, rec);
+        // one case in four: a history of related headers in one refilled buffer (the rebuilds go
+        // through the builder in between, as a proxy that re-emits what it parsed does)
+        spec::sib::run_v2(&b, idx, 4, |x| judge(x, rec));
     }
     fn floor(&self, tier: Tier) -> Vec<&'static str> {
         if tier == Tier::Miri {
